@@ -22,11 +22,24 @@ def main():
     seed = int(os.environ.get("VERIF_SEED", "20260925"))
     # never run from inside the repo tree (its corrector/types.py shadows the stdlib)
     os.chdir(common.VERIF)
-    ctx = common.Ctx(a.prop, a.tier, seed)
+    rec = json.load(open(a.replay)) if a.replay else None
     mod = importlib.import_module("props." + a.prop.lower())
+    if rec is not None and not hasattr(mod, "replay"):
+        # no dedicated replay entry point: every random choice of a check derives from (seed, tier), so re-running the check with the
+        # recorded seed and tier regenerates the recorded failing input deterministically
+        seed = int(rec.get("seed", seed))
+        a.tier = rec.get("tier", a.tier)
+    ctx = common.Ctx(a.prop, a.tier, seed)
+    try:
+        # hiten's prange kernels are small; with all 16 numba threads active every parallel region waits at its barrier for the slowest
+        # thread, which on a busy machine (several checks at once) makes a run 10-20x slower.  Four active threads by default; the checks
+        # whose property quantifies over thread counts (C06, C14) sweep numba.set_num_threads(1..NUMBA_NUM_THREADS) themselves.
+        import numba
+        numba.set_num_threads(min(4, int(numba.config.NUMBA_NUM_THREADS)))
+    except Exception:
+        pass
     try:
         if a.replay:
-            rec = json.load(open(a.replay))
             if hasattr(mod, "replay"):
                 mod.replay(ctx, rec)
             else:
